@@ -78,6 +78,14 @@ POPCOUNT_DEFINE_PORTABLE(I64_POPCNT, u64)
 
 #endif // _MSC_VER
 
+// WebAssembly min/max: NaN if either operand is NaN, and -0 < +0
+#define FP_MIN(a, b) (((a) != (a) || (b) != (b)) ? ((a) + (b)) : ((a) < (b) ? (a) : ((b) < (a) ? (b) : (signbit(a) ? (a) : (b)))))
+#define FP_MAX(a, b) (((a) != (a) || (b) != (b)) ? ((a) + (b)) : ((a) > (b) ? (a) : ((b) > (a) ? (b) : (signbit(a) ? (b) : (a)))))
+static inline float F32_MIN(float a, float b) { return FP_MIN(a, b); }
+static inline float F32_MAX(float a, float b) { return FP_MAX(a, b); }
+static inline double F64_MIN(double a, double b) { return FP_MIN(a, b); }
+static inline double F64_MAX(double a, double b) { return FP_MAX(a, b); }
+
 #define ROTL(x, y, mask) \
   (((x) << ((y) & (mask))) | ((x) >> (((mask) - (y) + 1) & (mask))))
 #define ROTR(x, y, mask) \
